@@ -361,6 +361,21 @@ class Pop:
             for _ in range(r.randint(1, 3)):
                 self.child(h, [x, y], alter=r.choice([15, 17, 18, 21, 24]),
                            self_sufficient=r.random() < 0.7)
+        # -- structures OUTSIDE the validity assumptions V7 (used only where the property must hold for every table
+        #    gettsim accepts, e.g. relabelling invariance): several persons compete for one family unit
+        elif kind == "child_with_partner":
+            x, y = self.couple(h, married=r.random() < 0.7, a1=r.randint(45, 60))
+            c = self.child(h, [x, y], alter=r.randint(18, 24))
+            q = self.person(h, r.randint(18, 30))
+            c["p_id_einstandspartner"], q["p_id_einstandspartner"] = q["p_id"], c["p_id"]
+        elif kind == "coparents_not_partners":
+            x = self.person(h, r.randint(25, 50))
+            y = self.person(h, r.randint(25, 50))
+            for _ in range(r.randint(1, 2)):
+                self.child(h, [x, y] if r.random() < 0.5 else [y, x], alter=r.randint(0, 17))
+            if r.random() < 0.5:
+                z = self.person(h, r.randint(25, 50))
+                y["p_id_einstandspartner"], z["p_id_einstandspartner"] = z["p_id"], y["p_id"]
         else:
             raise ValueError(kind)
         return kind
@@ -419,6 +434,36 @@ def population(rnd, date: str, n_clusters=None, kinds=None, relabel=True, shuffl
     for k in kinds:
         p.cluster(k)
     return p.frame(relabel=relabel, shuffle=shuffle), kinds
+
+
+def near_copies(rnd, date: str, n=None):
+    """A "finite-difference" table: n single-person households that are copies of one person except for ONE float input,
+    which differs from row to row by steps far below any statutory granularity (fractions of a cent, relative 1e-7 … 1e-5)
+    around a statutory threshold or a round amount -- the table one builds to read off marginal rates and notches."""
+    n = n or rnd.randint(3, 7)
+    p = Pop(rnd, date)
+    p.cluster("single")
+    base = dict(p.rows[0])
+    hh0 = dict(p.hh[0])
+    var = rnd.choice(["bruttolohn_m", "bruttolohn_m", "eink_selbst_m", "kapitaleink_brutto_m", "eink_vermietung_m",
+                      "sonstig_eink_m", "vermögen_bedürft", "bruttolohn_vorj_m", "priv_rente_m"])
+    centre = float(rnd.choice(_thresholds(date) + [450.0, 520.0, 1000.0, 2000.0, 5000.0, 12000.0]))
+    if var == "bruttolohn_m":
+        base["selbstständig"] = False
+        base["arbeitsstunden_w"] = 30.0
+    step = rnd.choice([0.001, 0.002, 0.01, centre * 1e-7, centre * 2e-6])
+    rows, hhs = [], []
+    for i in range(n):
+        q = dict(base)
+        q["p_id"] = base["p_id"] + i
+        h = dict(hh0)
+        h["hh_id"] = hh0["hh_id"] + i
+        q["hh_id"] = h["hh_id"]
+        q[var] = max(0.0, centre + (i - n // 2) * step) if var != "eink_vermietung_m" else centre + (i - n // 2) * step
+        rows.append(q)
+        hhs.append(h)
+    p.rows, p.hh = rows, hhs
+    return p.frame(relabel=False, shuffle=False), [f"near-copies:{var}@{centre}+-{step}"]
 
 
 def frame_to_json(df: pd.DataFrame) -> dict:
